@@ -20,6 +20,10 @@ static uintptr_t rot0_left(uintptr_t v); static uintptr_t rot0_right(uintptr_t v
 #define XV_ROTATE_left(C, v)  ((C) == 0 ? rot0_left(v)  : rot_left((C), (v)))
 #define XV_ROTATE_right(C, v) ((C) == 0 ? rot0_right(v) : rot_right((C), (v)))
 #define XENIUM_MAX_UPPER_MARK_BITS XV_DEFAULT_MAX_UPPER
+#define MP_GET(x) mp_get(&(x))
+#define MP_MARK(x) mp_mark(&(x))
+#define MP0_GET(x) mp0_get(&(x))
+#define MP0_MARK(x) mp0_mark(&(x))
 
 /* harness inputs (native replay reads these) */
 uintptr_t in_mb, in_mu, in_p, in_m, in_p2, in_m2, in_w, in_w2, in_c, in_v;
@@ -65,7 +69,7 @@ void h_consts(void) {
   XV_OBL("mp.consts.layout", MarkMask == spec_low_ones(mb));
   XV_OBL("mp.consts.layout", pointer_mask == (uintptr_t)~spec_reserved(mb, mu));
   XV_OBL("mp.consts.layout", XV_SPEC0_NUMBER_OF_MARK_BITS == 0);
-  XV_OBL("mp.consts.layout", XV_TPL_DEFAULT_MAX_UPPER <= 32);
+  XV_OBL("mp.consts.layout", XV_TPL_DEFAULT_MAX_UPPER == 16);   /* documented: "defaults to 16" (the bits a 48-bit address leaves free) */
   in_p = nondet_uptr(); { T* p = (T*)in_p;
     XV_OBL("mp.ctor.precondition", (XV_PRE_MAKE_PTR) == spec_canonical(in_p, mb, mu)); }
   if (upper_mark_bits > 0 && lower_mark_bits > 0) XV_CANARY("consts.split");
